@@ -511,6 +511,9 @@ struct SchedOutcome {
     stuck: bool,
 }
 
+/// schedule entries from here on encode a wait window: `WAIT_BASE + 16 * ms + thread`
+const WAIT_BASE: usize = 1_000_000;
+
 fn schedule(case: &Case) -> SchedOutcome {
     let nt = case.threads.len();
     let mut finished: Vec<bool> = case.threads.iter().map(|ops| ops.is_empty()).collect();
@@ -530,6 +533,31 @@ fn schedule(case: &Case) -> SchedOutcome {
         // explicit prefix
         let mut choice: Option<(usize, bool)> = None;
         for t in sched.by_ref() {
+            if t >= WAIT_BASE {
+                // a wait window `w<ms>:<t>`: thread t alone is scheduled for at least <ms> milliseconds of wall-clock time (or until
+                // it finishes) -- a thread that waits a long time for another one to move; its loads are counted, not logged
+                let (ms, wt) = (((t - WAIT_BASE) / 16) as u64, (t - WAIT_BASE) % 16);
+                if wt < nt && !finished[wt] {
+                    let t0 = std::time::Instant::now();
+                    rt::QUIET_LOADS.store(true, std::sync::atomic::Ordering::Relaxed);
+                    *rt::FREE_UNTIL.lock().unwrap_or_else(|e| e.into_inner()) = Some(t0 + std::time::Duration::from_millis(ms));
+                    rt::FREE_RUN.store(wt, std::sync::atomic::Ordering::Relaxed);
+                    while t0.elapsed().as_millis() < ms as u128 {
+                        let r = rt::grant_and_wait(wt);
+                        steps += 1;
+                        if r.finished {
+                            finished[wt] = true;
+                            break;
+                        }
+                    }
+                    rt::FREE_RUN.store(usize::MAX, std::sync::atomic::Ordering::Relaxed);
+                    *rt::FREE_UNTIL.lock().unwrap_or_else(|e| e.into_inner()) = None;
+                    rt::QUIET_LOADS.store(false, std::sync::atomic::Ordering::Relaxed);
+                    last.clear();
+                    streak = 0;
+                }
+                continue;
+            }
             if t < nt && !finished[t] {
                 choice = Some((t, true));
                 break;
@@ -1058,6 +1086,18 @@ pub fn run_case(case: &Case) {
         (Src::Range(s, e), _) => {
             let (s, e) = (*s, *e);
             run_generic(case, false, &mut || IntoConcurrentIter::into_con_iter(s..e));
+        }
+        (Src::Iter(script, hint), _) if case.zstiter => {
+            // a wrapped iterator of a zero-sized *type*: its state is outside the value
+            let core = Box::into_raw(Box::new(ProbeCore::new(script.clone(), *hint)));
+            crate::elem::ZCORE.store(core, std::sync::atomic::Ordering::Relaxed);
+            let mut once = Some(crate::elem::ZstProbe);
+            run_generic(case, true, &mut || {
+                let p = once.take().expect("iter kinds have one slot");
+                IterIntoConcurrentIter::into_con_iter(p)
+            });
+            crate::elem::ZCORE.store(std::ptr::null_mut(), std::sync::atomic::Ordering::Relaxed);
+            drop(unsafe { Box::from_raw(core) });
         }
         (Src::Iter(script, hint), _) => {
             let mut once = Some(Probe(ProbeCore::new(script.clone(), *hint)));
